@@ -27,6 +27,7 @@ SMOKE = [
     ('AddMod', 'MC_AddMod_adjacent.cfg', 'OnlyAdjacent'),
     ('DigitalValue', 'MC_DigitalValue_prefix.cfg', 'MeetsLiteral'),
     ('ModPushPop', 'MC_ModPushPop_noreset.cfg', 'Restored'),
+    ('Preprocess', 'MC_Preprocess_prefix.cfg', 'SameLength'),
     ('RelPeriodMech', 'MC_RelPeriod_weekend.cfg', 'WeekendIsoYear'),
 ]
 
